@@ -2,7 +2,7 @@
    Targets), Recv (delivery and the receive paths), Groups (swap_remove and the
    group table) and Inv (invariants of every reachable world). *)
 From TV.Lib Require Import Base.
-From TV.Udp Require Export Model Spec Routes Recv Groups Inv.
+From TV.Udp Require Export Model Spec Routes Recv Groups Inv Once.
 Open Scope N_scope.
 
 (* get_bind only looks at the hosts *)
